@@ -22,10 +22,11 @@ import (
 	"verifharness/exprgen"
 	. "verifharness/kit"
 	"verifharness/objparts"
+	"verifharness/sdfgen"
 	"verifharness/shapes"
 )
 
-func main() { Main("C01", check, exprgen.Gen) }
+func main() { Main("C01", check, exprgen.Gen, sdfgen.Gen) }
 
 const imp = "From Sdfx Require Import Sdf.ShapeCorr.\nOpen Scope float_scope."
 
